@@ -495,6 +495,62 @@ def extra_families(ctx, rnd, nprng):
     return recs
 
 
+def very_long(ctx, rnd, nprng):
+    """records of the length of a processing batch (16 k - 70 k samples: the trace specification's clauses are quadratic in the
+    length, so these are judged here with the same clauses written out): flags exactly where the counts say, gain 0 on every
+    flagged sample, gain 1 farther than the taper from every flag.  Events sit on and next to the positions a blockwise
+    implementation would cut at (powers of two, multiples of round block sizes), at both ends and anywhere."""
+    nrec = 3 if ctx.quick else 14
+    for i in range(nrec):
+        ns = [16390, 40003, 65539, 32770, 20000, 70001, 16385][i % 7] + (i // 7) * 13
+        nc_abs, rep = rnd.choice([1, 3, 5]), 1
+        a, b = rnd.choice([(1, 5), (1, 2), (2, 5)])
+        hi = (a * nc_abs) // b + 1
+        M = rnd.choice([7, 7, 4, 12])
+        cuts = {2 ** k + d for k in range(10, 17) for d in (-2, -1, 0)} | {m * q + d for m in (1000, 3000, 4096, 8192, 10000, 16384, 30000)
+                                                                              for q in range(1, 8) for d in (-1, 0)}
+        pos = sorted(p_ for p_ in cuts if 2 <= p_ < ns - 2)
+        pos = sorted(set(rnd.sample(pos, min(len(pos), 40)) + [0, ns - 2, ns - 1] + [rnd.randrange(ns) for _ in range(6)]))
+        co, cs = [0] * ns, [0] * (ns - 1)
+        for j, p_ in enumerate(pos):
+            if j % 3 == 2 or p_ == ns - 1:
+                co[p_] = hi
+            else:
+                cs[p_] = hi
+        mode = draw_mode(rnd)
+        data, maxv, co_r, cs_r, _ca = realise(co, cs, nc_abs, rep, rnd, nprng, mode)
+        what = f"saturation() on a record of {ns} samples x {nc_abs} channels (proportion {a}/{b}, mute_window_samples={M}, {mode})"
+        sc = {"kind": "verylong", "i": i, "seed": ctx.seed}
+        ctx.count(1, key=("verylong", ns, nc_abs, a, b, M))
+        try:
+            sat, mute = call(data, maxv, mode, a, b, M)
+            sat, mute = np.asarray(sat).ravel() != 0, np.asarray(mute, dtype=float).ravel()
+        except Exception as e:
+            ctx.violation("sat:Raised:" + type(e).__name__, f"{what} raised {type(e).__name__}: {e}"[:300], sc)
+            continue
+        nc = nc_abs * rep
+        exp = np.array([c * b > a * nc for c in co_r]) | np.r_[np.array([c * b > a * nc for c in cs_r[:ns - 1]]), False]
+        if sat.shape != (ns,) or mute.shape != (ns,):
+            ctx.violation("sat:OneValuePerSample", f"{what}: shapes {sat.shape} / {mute.shape}", sc)
+            continue
+        bad = np.flatnonzero(sat != exp)
+        if bad.size:
+            ctx.violation("sat:Flag", f"{what}: flags differ from the proportion rule at samples {bad[:6].tolist()} (flagged there: "
+                          f"{sat[bad[:6]].tolist()})", sc)
+            continue
+        fl = np.flatnonzero(exp)
+        dist = np.full(ns, ns)
+        if fl.size:
+            idx = np.searchsorted(fl, np.arange(ns))
+            left = np.where(idx > 0, np.arange(ns) - fl[np.clip(idx - 1, 0, fl.size - 1)], ns)
+            right = np.where(idx < fl.size, fl[np.clip(idx, 0, fl.size - 1)] - np.arange(ns), ns)
+            dist = np.minimum(left, right)
+        if np.any(np.abs(mute[exp]) > TOL):
+            ctx.violation("sat:ZeroOnFlag", f"{what}: gain {mute[exp][np.abs(mute[exp]) > TOL][:3].tolist()} on flagged samples", sc)
+        elif np.any(np.abs(mute[dist > M] - 1) > TOL) or np.any((mute < -TOL) | (mute > 1 + TOL)):
+            ctx.violation("sat:OneFar", f"{what}: gain is not 1 farther than the taper from every flagged sample / leaves [0, 1]", sc)
+
+
 def reader_family(ctx, folder, rnd, nprng):
     """voltages read through the real Reader, max_voltage = Reader.range_volts (per-channel gains; AP and LF streams).
     The first call is made the way decompress_destripe_cbin makes it (keywords, defaults for everything else but the
@@ -615,6 +671,7 @@ def run(ctx):
                           {"kind": "abs", "rec": strip(rec)})
     ctx.sample({"abstract": {k: cases[0][k] for k in ("nc", "ns", "a", "b", "M", "co", "cs", "flags", "cls")},
                 "observed": strip(recs[0])})
+    very_long(ctx, random.Random(ctx.seed + 99), np.random.default_rng(ctx.seed + 99))
     extra = extra_families(ctx, rnd, nprng)
     rdr = reader_family(ctx, ctx.scratch / "rec", rnd, nprng)
     ctx.count(2 * len(extra) + 2 * len(rdr))
@@ -779,6 +836,11 @@ def selftest(ctx, cases):
 
 def replay(ctx, sc):
     logging.getLogger("ibllib").setLevel(logging.ERROR)
+    if sc.get("kind") == "verylong":
+        # the family is a function of the seed: the same records, judged the same way
+        sd = sc.get("seed", ctx.seed)
+        very_long(ctx, random.Random(sd + 99), np.random.default_rng(sd + 99))
+        return
     r = sc["rec"]
     if sc.get("kind") == "reader":
         recs = reader_family(ctx, ctx.scratch / "rec", random.Random(ctx.seed), np.random.default_rng(ctx.seed))
